@@ -78,11 +78,12 @@ class Rev(ReverseProxyBasePlugin):
         return memoryview(b'HTTP/1.1 200 OK\r\nContent-Length: %d\r\nX-Origin: OL\r\n\r\n' % len(body) + body)
 
 
-def flags_for(role: str) -> Any:
+def flags_for(role: str, pp: bool = False) -> Any:
+    ppf = ['--enable-proxy-protocol'] if pp else []
     if role == 'forward':
-        return make_flags([], cache_key='c04:forward')
+        return make_flags(ppf, cache_key='c04:forward:%s' % pp)
     if role == 'web':
-        return make_flags(['--enable-web-server'], plugins=[RouteA, RouteB], cache_key='c04:web')
+        return make_flags(['--enable-web-server'] + ppf, plugins=[RouteA, RouteB], cache_key='c04:web:%s' % pp)
     if role == 'mixed':
         # web routes and reverse-proxy routes side by side: one connection may address both kinds in any order
         return make_flags(['--enable-web-server', '--enable-reverse-proxy'], plugins=[RouteA, RouteB, Rev], cache_key='c04:mixed')
@@ -127,7 +128,7 @@ def run_case(case: Dict[str, Any]) -> Dict[str, Any]:
     specs: List[Dict[str, Any]] = case['requests']
     shim.S.reset()
     texc = monitors.watch_task_exceptions()
-    flags = flags_for(role)
+    flags = flags_for(role, bool(case.get('pp')))
     rig = StepRig(flags, case.get('mode', 'local'))
     viol: List[Dict[str, Any]] = []
     obs: Dict[str, int] = {}
@@ -156,6 +157,10 @@ def run_case(case: Dict[str, Any]) -> Dict[str, Any]:
                 _routes['A2'] = None
         client = rig.add_client(case.get('transport', 'unix'))
         raws = [build_request(role, s, hostports) for s in specs]
+        if case.get('pp'):
+            # behind a load balancer speaking the PROXY protocol: one line ahead of the first request of the connection, nothing else changes
+            raws[0] = {'TCP4': b'PROXY TCP4 192.0.2.7 198.51.100.9 50123 8899\r\n', 'UNKNOWN': b'PROXY UNKNOWN\r\n'}[case['pp']] + raws[0]
+            obs['proxy_protocol_histories'] = 1
         methods = [s['method'].encode() for s in specs]
         want = [expected_tag(role, s) for s in specs]
 
@@ -405,6 +410,7 @@ def cases(tier: str, seed: int):
             reqs[-1]['to'] = 'N'
         yield {'seed': seed, 'i': i, 'role': role, 'packing': packing, 'requests': reqs,
                'ncuts': rng.choice([0, 0, 1, 3, 8]), 'answer_p': rng.choice([1.0, 0.7, 0.3]),
+               'pp': rng.choice(['TCP4', 'UNKNOWN']) if role in ('forward', 'web') and i % 5 == 0 else None,
                'transport': rng.choice(['unix', 'tcp']), 'mode': rng.choice(['local', 'local', 'remote'])}
 
 
@@ -432,7 +438,7 @@ def cases(tier: str, seed: int):
 
 
 def floors(tier: str) -> Dict[str, int]:
-    return {'histories>=3': 200, 'packing:packed': 150, 'role:forward': 50, 'role:web': 50, 'role:reverse': 50, 'role:mixed': 100,
+    return {'histories>=3': 200, 'packing:packed': 150, 'role:forward': 50, 'role:web': 50, 'role:reverse': 50, 'role:mixed': 100, 'proxy_protocol_histories': 100,
             'responses_matched': 300, 'multi_target': 30, 'last_request_asks_close': 100, 'packing:overlap': 50, 'unrouted_followups_checked': 10, 'with_body': 100, 'distinct:schedules': 200}
 
 
